@@ -29,6 +29,10 @@ ROOT = os.path.dirname(os.path.dirname(os.path.abspath(__file__)))
 REPLAY_DIR = os.path.join(ROOT, "replays")
 FOUND_DIR = os.path.join(REPLAY_DIR, "found")
 EVIDENCE_DIR = os.path.join(ROOT, "evidence")
+if os.environ.get("VERIF_REPO"):
+    # sensitivity run against a scratch copy of the library: nothing it produces may land in /verif/evidence or /verif/replays
+    FOUND_DIR = os.path.join(os.environ["VERIF_REPO"], "verif_found")
+    EVIDENCE_DIR = os.path.join(os.environ["VERIF_REPO"], "verif_evidence")
 KNOWN_FILE = os.path.join(ROOT, "known_findings.json")
 NSHARDS = int(os.environ.get("VERIF_SHARDS", "16"))
 
